@@ -20,7 +20,7 @@ def run_part(c):
     b = c.go_build("c10prim")
     if not b:
         return
-    args = ["-n", "16", "-nb", "12", "-nrec", "8"] if c.tier == "quick" else ["-n", "400", "-nb", "0", "-nrec", "150", "-allbits"]
+    args = ["-n", "16", "-nb", "12", "-nrec", "8"] if c.tier == "quick" else ["-n", "120", "-nb", "0", "-nrec", "40", "-allbits"]
     rc, out = c.run([b, "-out", c.build, "-seed", str(c.seed)] + args, timeout=2400)
     if rc != 0:
         c.break_("corr", "c10prim harness run failed", out)
